@@ -187,6 +187,8 @@ def ev_binary(op, a, b, tie_ok=False, a_active=True, b_active=True):
             r2 = x * x + y * y
             if r2 < 1e-2 or r2 > BIG:
                 raise Reject()
+            if y < 0 and abs(x) < 1e-6:
+                raise Reject()          # on the branch cut the sign of a zero (e.g. nearbyint(-0.4) = -0.0) decides between +pi and -pi
             z = math.atan2(x, y)
             if abs(z) < 1e-3:
                 raise Reject()
